@@ -224,6 +224,18 @@ func c03Scenarios() []*c03Scn {
 	spanThree.sizes, spanThree.prios = []int64{3}, []uint8{255}
 	add("span", 6, 8, spanThree, c03Set{"system", pM4})
 
+	// spans whose owner is closed first while ANOTHER holder is still charged to the shared ancestors: a span that
+	// releases again what its owner's Done already returned is masked by the clamp at zero unless somebody else's
+	// reservation is there to be taken (added after a seeded change was missed)
+	spanOther := spanConn
+	spanOther.sizes, spanOther.prios, spanOther.maxSpans, spanOther.maxNest = []int64{3}, []uint8{255}, 1, 1
+	spanOther.views, spanOther.viewSizes, spanOther.viewPrios = []string{c03Sys}, []int64{3}, []uint8{255}
+	add("span", 7, 9, spanOther)
+	spanTwo := spanStream
+	spanTwo.maxStreams, spanTwo.memOn, spanTwo.maxSpans, spanTwo.maxNest = 2, [3]bool{false, true, true}, 1, 1
+	spanTwo.svc, spanTwo.protos = false, nil
+	add("span", 7, 9, spanTwo)
+
 	// ---- family view: View*-reservations, spans on View* scopes, gc ----
 	viewAll := c03Alpha{views: []string{c03Sys, c03Tr, c03PeerScope[0], c03ProtoScope[0], c03SvcN}, viewSizes: []int64{1, 3}, viewPrios: []uint8{255},
 		gc: true}
@@ -321,7 +333,7 @@ func c03Scenarios() []*c03Scn {
 
 func c03Spec(t *testing.T, scn *c03Scn, depth int) *seqmc.Spec[*c03Inst, c03Op] {
 	return &seqmc.Spec[*c03Inst, c03Op]{
-		Name:     scn.name,
+		Name: scn.name,
 		New: func() *c03Inst {
 			in := c03New(scn)
 			in.depth = depth
